@@ -20,6 +20,10 @@
 (*                 before the acknowledgement (netsim cutAfter)            *)
 (*     ctxCancel   the acknowledgement never comes and the caller cancels  *)
 (*                 the context of that attempt (netsim dropAck + cancel)   *)
+(*     connGone    the connection of that client has already ended (peer   *)
+(*                 closed it, Done() is closed) when the attempt is made:  *)
+(*                 nothing reaches the broker, the attempt is interrupted  *)
+(*                 at the stage it starts with                             *)
 (*                                                                         *)
 (* ExpectedRetry(kind, fails) is the table the real code is compared with: *)
 (* what every attempt's error must look like, which request packets every  *)
@@ -30,7 +34,7 @@ EXTENDS Integers, Sequences, FiniteSets, TLC, Json, SequencesExt
 CONSTANT MaxFails      \* number of interrupted attempts per scenario: 1..MaxFails
 
 ReqKinds == {"pub0", "pub1", "pub2", "sub", "unsub"}
-Steps == {"writeFails", "ackLost", "ctxCancel"}
+Steps == {"writeFails", "ackLost", "ctxCancel", "connGone"}
 
 Stages(k) == CASE k = "pub0"  -> <<"PUBLISH">>
                [] k = "pub1"  -> <<"PUBLISH">>
@@ -41,14 +45,17 @@ Stages(k) == CASE k = "pub0"  -> <<"PUBLISH">>
 Outcome(step) == CASE step = "writeFails" -> "cutBefore"
                    [] step = "ackLost"    -> "cutAfter"
                    [] step = "ctxCancel"  -> "dropAck"
+                   [] step = "connGone"   -> "connGone"
 
 (* The cause errors.Is must find in the error of an attempt interrupted by `step`:                  *)
 (*   writeFails -> the very error Transport.Write returned ("transportErr"),                        *)
 (*   ackLost    -> mqtt.ErrClosedTransport (the serve loop saw the connection die),                 *)
-(*   ctxCancel  -> the Err() of the attempt's context (context.Canceled).                           *)
+(*   ctxCancel  -> the Err() of the attempt's context (context.Canceled),                           *)
+(*   connGone   -> the transport's error or mqtt.ErrClosedTransport ("connEnded").                  *)
 Cause(step) == CASE step = "writeFails" -> "transportErr"
                  [] step = "ackLost"    -> "ErrClosedTransport"
                  [] step = "ctxCancel"  -> "ctxErr"
+                 [] step = "connGone"   -> "connEnded"
 
 (* A failure is [stage, step].  QoS 0 has no acknowledgement to lose: only the write can fail.      *)
 FailsOf(k) == IF k = "pub0" THEN { [stage |-> 1, step |-> "writeFails"] }
@@ -58,9 +65,11 @@ FailsOf(k) == IF k = "pub0" THEN { [stage |-> 1, step |-> "writeFails"] }
 (* was received (failure at PUBREL) the PUBLISH must not be sent again [MQTT-4.3.3: the sender MUST *)
 (* NOT re-send the PUBLISH once it has sent the corresponding PUBREL].                              *)
 Monotone(fs) == \A i \in 1..(Len(fs) - 1) : fs[i].stage <= fs[i+1].stage
+(* an attempt on a connection that has already ended makes no progress: it fails at the stage it starts with *)
+GoneOk(fs) == \A i \in 1..Len(fs) : fs[i].step = "connGone" => fs[i].stage = (IF i = 1 THEN 1 ELSE fs[i-1].stage)
 
 FailSeqs(k) == IF k = "pub0" THEN { <<f>> : f \in FailsOf(k) }   \* not retryable: one attempt only
-               ELSE { fs \in UNION { [1..n -> FailsOf(k)] : n \in 1..MaxFails } : Monotone(fs) }
+               ELSE { fs \in UNION { [1..n -> FailsOf(k)] : n \in 1..MaxFails } : Monotone(fs) /\ GoneOk(fs) }
 
 Scenarios == UNION { { [kind |-> k, fails |-> fs] : fs \in FailSeqs(k) } : k \in ReqKinds }
 
@@ -76,7 +85,9 @@ LastStage(sc, a) == IF a <= Len(sc.fails) THEN sc.fails[a].stage ELSE Len(Stages
 (* PUBLISH and 1 on every re-transmission [MQTT-3.3.1-1], [MQTT-3.3.1-2]; other packets have no DUP. *)
 (* sameId: the packet must carry the packet identifier of the original PUBLISH [MQTT-4.3.2/4.3.3,   *)
 (* 2.3.1: a re-sent PUBLISH and the PUBREL of the flow use the same identifier].                    *)
-Packets(sc, a) == [ i \in 1..(LastStage(sc, a) - FirstStage(sc, a) + 1) |->
+Gone(sc, a) == a <= Len(sc.fails) /\ sc.fails[a].step = "connGone"
+Packets(sc, a) == IF Gone(sc, a) THEN << >> ELSE
+                  [ i \in 1..(LastStage(sc, a) - FirstStage(sc, a) + 1) |->
                       LET p == Stages(sc.kind)[FirstStage(sc, a) + i - 1] IN
                       [ p |-> p,
                         dup |-> (p = "PUBLISH" /\ a > 1),
@@ -92,7 +103,8 @@ CountBefore(sc, a, p) == Sent(sc, a-1, p) + CountIn(Packets(sc, a), p, Len(Packe
 
 (* netsim fault rule of interrupted attempt a: the N-th packet of type P gets outcome O *)
 Fault(sc, a) == LET p == Stages(sc.kind)[sc.fails[a].stage] IN
-                [ p |-> p, n |-> CountBefore(sc, a, p) + 1, o |-> Outcome(sc.fails[a].step) ]
+                IF Gone(sc, a) THEN [ p |-> p, n |-> 0, o |-> "connGone" ]
+                ELSE [ p |-> p, n |-> CountBefore(sc, a, p) + 1, o |-> Outcome(sc.fails[a].step) ]
 
 (* what the error of attempt a must look like *)
 ErrExpect(sc, a) ==
@@ -115,7 +127,7 @@ ExpectedRetry(sc) ==
 ASSUME R1 == \A sc \in Scenarios : \A a \in 1..Len(sc.fails) :
                  ErrExpect(sc, a).retryable <=> sc.kind # "pub0"
 \* R2: the first packet of every retry is the packet that was interrupted ("re-issues that same request")
-ASSUME R2 == \A sc \in Scenarios : \A a \in 2..NAttempts(sc) :
+ASSUME R2 == \A sc \in Scenarios : \A a \in 2..NAttempts(sc) : ~Gone(sc, a) =>
                  Packets(sc, a)[1].p = Stages(sc.kind)[sc.fails[a-1].stage]
 \* R3: DUP=0 exactly on attempt 1; every PUBLISH of a retry has DUP=1
 ASSUME R3 == \A sc \in Scenarios : \A a \in 1..NAttempts(sc) : \A i \in 1..Len(Packets(sc, a)) :
@@ -125,10 +137,10 @@ ASSUME R4 == \A sc \in Scenarios : \A a \in 1..Len(sc.fails) : Stages(sc.kind)[s
                  \A b \in (a+1)..NAttempts(sc) : \A i \in 1..Len(Packets(sc, b)) : Packets(sc, b)[i].p # "PUBLISH"
 \* R5: the last attempt runs the request to its end; every attempt sends at least one packet
 ASSUME R5 == \A sc \in Scenarios :
-                 /\ \A a \in 1..NAttempts(sc) : Len(Packets(sc, a)) >= 1
+                 /\ \A a \in 1..NAttempts(sc) : ~Gone(sc, a) => Len(Packets(sc, a)) >= 1
                  /\ Retryable(sc.kind) => Last(Packets(sc, NAttempts(sc))).p = Last(Stages(sc.kind))
 \* R6: the fault rule of attempt a hits the last packet of connection a and nothing earlier
-ASSUME R6 == \A sc \in Scenarios : \A a \in 1..Len(sc.fails) :
+ASSUME R6 == \A sc \in Scenarios : \A a \in 1..Len(sc.fails) : ~Gone(sc, a) =>
                  /\ Fault(sc, a).p = Last(Packets(sc, a)).p
                  /\ Fault(sc, a).n >= 1
 
